@@ -15,7 +15,11 @@ CHECKS = {
         text="CapySem.tla is a definitional interpreter, written in TLA+ over JSON abstract syntax, "
              "for the supported fragment: machine integers of several widths with wrapping "
              "arithmetic, shifts and casts (BV.tla), bool with short-circuit operators, arrays and "
-             "nested structs with copy semantics, functions, if / while / loop, labeled blocks "
+             "nested structs with copy semantics, sum values (?T, enums) with switch / #unwrap / "
+             "#is_variant / .try, pointers (^ / ^mut to variables, fields and elements; stores and "
+             "reads through them with and without auto-dereference; pointer parameters that write "
+             "into the frames of callers, also several frames down), functions, if / while / loop, "
+             "labeled blocks "
              "with values, break / continue with and without labels, early return, defer (LIFO on "
              "every exit), index faults (message, status 1, nothing afterwards), exit status = low "
              "byte of main's result. tools/capygen.py generates seeded, well-typed, determinate "
@@ -24,8 +28,8 @@ CHECKS = {
              "bytes, how it ended, status) against the interpreter (TraceSem.tla). A corrupted "
              "output byte or status is rejected (binding demonstration in DESIGN.md).",
         note="quick: 360 programs + 40 ending in an out-of-range index; thorough: 5 000 + 500. "
-             "Not in the fragment yet: pointers, slices, enums / optionals / error unions and "
-             "switch (covered per construct by C02 C10 C11), varargs, floats (C08). Programs "
+             "Not in the fragment yet: slices, error unions, pointers stored inside aggregates "
+             "or returned from functions, varargs, floats (C08). Programs "
              "whose evaluation exceeds the fuel of 400 loop iterations / calls are not judged. "
              "Trusted: TLC, the generator's determinacy discipline (pure functions inside "
              "expressions, literal shift amounts, no division), the renderer, gcc as linker.",
